@@ -183,7 +183,8 @@ def enc_twice_jobs():
 def enc_counter_jobs():
     """C09, model-free, incl. packets with an empty payload (outside C07's domain, inside C09's 'any encode call')"""
     jobs = []
-    shapes = [(enc_shape([0]), "quick"), (enc_shape([8, 0]), "quick"), (enc_shape([0, 8]), "quick"), (enc_shape([8, 0], [1, 3]), "quick"), (enc_shape([33, 0], maxb=40), "quick"),
+    shapes = [(enc_shape([0, 8], [3, 1]), "quick"), (enc_shape([8, 0, 8], [1, 3, 1]), "quick"), (enc_shape([0, 33], [3, 1], maxb=40), "quick"),   # an empty packet of another type just before a message
+              (enc_shape([0]), "quick"), (enc_shape([8, 0]), "quick"), (enc_shape([0, 8]), "quick"), (enc_shape([8, 0], [1, 3]), "quick"), (enc_shape([33, 0], maxb=40), "quick"),
               (enc_shape([16, 0], maxb=40), "quick"), (enc_shape([0, 0], [1, 3], minb=40), "quick"), (enc_shape([8, 41, 8]), "quick"), (enc_shape([0], minb=40), "thorough"), (enc_shape([0, 0, 0], api=2), "thorough"),
               (enc_shape([8, 0, 8], [1, 1, 3]), "thorough"), (enc_shape([0, 33], maxb=40), "thorough"), (enc_shape([8, 8], [1, 3]), "thorough"), (enc_shape([], api=1), "thorough")]
     for d, tier in shapes:
